@@ -549,6 +549,7 @@ func main() {
 			"PKCS#1 v1.5 signatures under every crypto.Hash 0..19 (no waiver: what the oracle signs zcrypto must sign and verify); OAEP with SHA-1/SHA-256 × labels {none, x} and SHA-256/384/512 × a 32-octet label; PSS salt modes, wrong-length digests, textbook salts; " +
 			"encoded-message deviations (one field off the valid EM) for PKCS#1 v1.5 enc/sig, OAEP, PSS (incl. 01||EM for 8k+1-bit moduli, first of 256 salts with EM < N); raw private/public operation on {0..3, N-1..N-4, (N±1)/2, primes and their multiples, every 2^i, every 2^i-1, 64 fixed vectors, out-of-range values}; " +
 			"legacy random argument {nil, live, failing reader} on every API documenting it as ignored; failing readers (after 0, 1, need-1 bytes) on every API that consumes randomness, judged against crypto/rsa on the same reader; " +
+			"call histories on ONE caller-owned hash.Hash (1024-bit fixture, SHA-1/SHA-256; SHA-384 too in thorough): every sequence of 2 (thorough: 3) calls from {EncryptOAEP admissible / one octet too long / failing reader / key without modulus, DecryptOAEP genuine / bit-flipped / representative N / k+1 octets} × labels {none, x, 32 octets}, crypto/rsa running the same sequence on one hash object of its own: error class, cross-decryption, plaintext, and the hash object left reset after every call exactly where crypto/rsa leaves it reset (a hash handed over with data already absorbed: recorded only); " +
 			"malformed public keys N∈{nil,0,1,-N} × E∈{nil,0,1,-1,-65537,2,65536} × public operations × signature shapes AND × private-key operations (Sign*, Decrypt*, PrivateKey.Sign/Decrypt, Validate; CRT values present and absent) × ciphertext shapes; Size/Equal/Public (no error result) recorded next to crypto/rsa. " +
 			"distinct non-trivial = cases in which zcrypto produced/accepted a value that the oracle then validated")
 		c.Assume("crypto/rsa (Go standard library of the toolchain) is the primary oracle whenever 2 <= E <= 2^31-1; GODEBUG rsa1024min=0 so that it accepts the 512-bit fixture; a start-up probe turns an unusable oracle (GODEBUG fips140=only, ...) into CHECK-BROKEN, never into a verdict",
@@ -733,6 +734,9 @@ func main() {
 		for _, n := range names {
 			p1 = append(p1, rawUnits(keys[n], !c.Quick())...)
 		}
+		if os.Getenv("VERIF_C23_ONLY") != "" {
+			p1 = nil
+		}
 		if !runAll(p1) {
 			c.Incomplete("budget hit in phase 1 (raw operations)")
 		}
@@ -740,8 +744,19 @@ func main() {
 		var p2 []unit
 		for _, n := range names {
 			p2 = append(p2, apiUnits(keys[n], !c.Quick())...)
+			p2 = append(p2, histUnits(keys[n], !c.Quick())...)
 		}
 		p2 = append(p2, unit{id: "malformed", sect: "malformed", cost: 1 << 30})
+		if only := os.Getenv("VERIF_C23_ONLY"); only != "" { // development aid: one section only, never a complete run
+			var f []unit
+			for _, u := range p2 {
+				if u.sect == only {
+					f = append(f, u)
+				}
+			}
+			p2 = f
+			c.Incomplete("VERIF_C23_ONLY=" + only + ": only that section was executed")
+		}
 		c.Set("units", len(p1)+len(p2))
 		defer func() { c.Set("units_executed", unitsDone.Load()) }()
 		if !runAll(p2) {
@@ -757,7 +772,9 @@ func main() {
 			byKey[parseUnit(id).key] += t
 		}
 		timeMu.Unlock()
-		reentrantPhase(c)
+		if os.Getenv("VERIF_C23_ONLY") == "" {
+			reentrantPhase(c)
+		}
 		c.Set("unit_seconds_by_section", bySect)
 		c.Set("unit_seconds_by_key", byKey)
 	})
@@ -915,6 +932,8 @@ func (x *uctx) runUnit() {
 		x.runPSS(crypto.Hash(h))
 	case "rdr":
 		x.runReaders()
+	case "hist":
+		x.runHist()
 	case "malformed":
 		x.runMalformed()
 	default:
